@@ -716,7 +716,9 @@ class VectorAwkward:
                 for name in fields:
                     if name not in (
                         "x",
+                        "px",
                         "y",
+                        "py",
                         "rho",
                         "pt",
                         "phi",
@@ -724,9 +726,12 @@ class VectorAwkward:
                         names.append(name)
                         arrays.append(self[name])
 
-            if "t" in fields or "tau" in fields:
+            if any(
+                name in fields
+                for name in ("t", "tau", "E", "e", "energy", "M", "m", "mass")
+            ):
                 cls = cls.ProjectionClass4D
-            elif "z" in fields or "theta" in fields or "eta" in fields:
+            elif any(name in fields for name in ("z", "pz", "theta", "eta")):
                 cls = cls.ProjectionClass3D
             else:
                 cls = cls.ProjectionClass2D
@@ -765,7 +770,9 @@ class VectorAwkward:
                 for name in ak.fields(self):
                     if name not in (
                         "x",
+                        "px",
                         "y",
+                        "py",
                         "rho",
                         "pt",
                         "phi",
@@ -831,7 +838,9 @@ class VectorAwkward:
                 for name in fields:
                     if name not in (
                         "x",
+                        "px",
                         "y",
+                        "py",
                         "rho",
                         "pt",
                         "phi",
@@ -843,7 +852,10 @@ class VectorAwkward:
                         names.append(name)
                         arrays.append(self[name])
 
-            if "t" in fields or "tau" in fields:
+            if any(
+                name in fields
+                for name in ("t", "tau", "E", "e", "energy", "M", "m", "mass")
+            ):
                 cls = cls.ProjectionClass4D
             else:
                 cls = cls.ProjectionClass3D
@@ -894,7 +906,9 @@ class VectorAwkward:
                 for name in ak.fields(self):
                     if name not in (
                         "x",
+                        "px",
                         "y",
+                        "py",
                         "rho",
                         "pt",
                         "phi",
@@ -968,7 +982,9 @@ class VectorAwkward:
                 for name in ak.fields(self):
                     if name not in (
                         "x",
+                        "px",
                         "y",
+                        "py",
                         "rho",
                         "pt",
                         "phi",
